@@ -298,6 +298,12 @@ def check_seq(seq, stats):
                     hits.append(hit("C19", seq, no, raw, f"with wrapping_version enabled, destroying the live entity {hv[1]} panicked ({pcls}); the feature documents wraparound in place of the generation-overflow panic, in every build profile", "wrapping-destroy-panics"))
                 if not wrapping and obs.startswith("some") and hv[1].endswith(".4294967295") and w.live[hv[1]][0] == hv[2] and not op[4:]:
                     hits.append(hit("C19", seq, no, raw, f"without wrapping_version, destroying {hv[1]} (generation 2^32-1) succeeded instead of panicking: the generation wrapped although the feature is off", "overflow-wrapped-without-feature"))
+            at_arch = next((int(t_[1:]) for t_ in op[4:] if t_.startswith("@")), None)
+            if hv and hv[0] == "d" and at_arch is not None and op[2] == "y" and obs.startswith("some") and hv[1]:
+                did_ = int(hv[1].split(".")[0]) & 0xff
+                if at_arch < len(ids) and ids[at_arch] != did_:
+                    hits.append(hit("C03", seq, no, raw, f"archetype {at_arch} (id {ids[at_arch]}) accepted the dynamically typed direct handle {hv[1]} of archetype id {did_} and destroyed one of its own entities", "foreign-direct-destroy"))
+                    hits.append(hit("C09", seq, no, raw, f"the direct handle {hv[1]} (archetype id {did_}) designated an entity of archetype {at_arch}: destroy through it removed an unrelated entity", "foreign-direct-destroy"))
             if hv is None and obs.startswith("some"):
                 hv = ("d", "?", None, False)   # a direct handle saved from a query closure
             if hv and obs.startswith("some"):
@@ -536,6 +542,8 @@ def check_seq(seq, stats):
                         hits.append(hit("C09", seq, no, raw, f"direct handle {di['words']} is still accepted ({acc_fields[0]}={f[acc_fields[0]][:50]}) after a removal from its archetype", "direct-survives-removal"))
                     if not removed_since and rej_fields:
                         hits.append(hit("C09", seq, no, raw, f"direct handle {di['words']} is rejected by {rej_fields[0]} although its archetype saw no removal since it was issued", "direct-dies-early"))
+                        if di.get("from_loop") == "iterd":
+                            hits.append(hit("C07", seq, no, raw, f"the direct handle {di['words']} that ecs_iter_destroy! handed to its closure does not designate the entity being visited: it is rejected by {rej_fields[0]} although nothing was removed afterwards", "loop-direct-stale"))
                     if not removed_since:
                         zst = [len(c) > 2 and c[2] == "z" for c in archs[di["arch"]]["comps"]]
                         exp = ["0" if z else e for e, z in zip(di["toks"], zst)]
@@ -659,7 +667,24 @@ def check_seq(seq, stats):
                 else:
                     w.created.clear()
                     w.destroyed.clear()
-        elif kind == "events" and events and w is not None and not w.unknown_destroy:
+        elif kind == "events" and events and w is not None and False:
+            pass
+        if kind == "events" and events and w is not None:
+            # C13: the pending events of a world and of its untouched clone are the same
+            w.probes["#events"] = (w.epoch, obs)
+            if w.clone_of is not None and w.epoch == w.clone_of[3]:
+                si, sep, _tm, _ = w.clone_of
+                src_ = worlds[si] if si < len(worlds) else None
+                if src_ is not None and src_.epoch == sep:
+                    rec = src_.probes.get("#events")
+                    if rec and rec[0] == sep and rec[1] != obs:
+                        hits.append(hit("C13", seq, no, raw, f"pending events differ between a world and its untouched clone: source `{rec[1][:120]}` clone `{obs[:120]}`", "clone-events-differ"))
+            for cw in worlds:
+                if cw is not None and cw.clone_of is not None and cw.clone_of[0] == cur and cw.epoch == cw.clone_of[3] and w.epoch == cw.clone_of[1]:
+                    rec = cw.probes.get("#events")
+                    if rec and rec[0] == cw.epoch and rec[1] != obs:
+                        hits.append(hit("C13", seq, no, raw, f"pending events differ between a world and its untouched clone: source `{obs[:120]}` clone `{rec[1][:120]}`", "clone-events-differ"))
+        if kind == "events" and events and w is not None and not w.unknown_destroy:
             stats["events"] += 1
             for a in range(narch):
                 m = re.search(r"c%d=\[([^\]]*)\] d%d=\[([^\]]*)\]" % (a, a), obs)
@@ -686,9 +711,25 @@ def check_seq(seq, stats):
             if sv:
                 if dargs:
                     dwords = dargs[-1][1:]
-                    hvars[sv] = ("d", dwords, id2arch.get(int(dwords.split(".")[0]) & 0xff), False)
+                    da_ = id2arch.get(int(dwords.split(".")[0]) & 0xff)
+                    hvars[sv] = ("d", dwords, da_, False)
+                    # C07 / C09: the handle was handed to the LAST closure call for the entity visited
+                    # there; unless that very call asked for the entity's destruction it designates a
+                    # live entity and nothing has been removed from its archetype since
+                    calls_ = call_list(obs)
+                    last = calls_[-1] if calls_ else []
+                    dec_ = next((t_[4:] for t_ in op if t_.startswith("dec=")), "")
+                    last_dec = (dec_[len(calls_) - 1] if len(calls_) - 1 < len(dec_) else "c") if kind == "iterd" else "c"
+                    lw = next((a_[1:] for a_ in last if a_.startswith("e") and "." in a_), None)
+                    if lw is None:
+                        lw = w.by_token([a_[1:].split(".")[0] for a_ in last if a_.startswith("c")]) if w is not None else None
+                    if w is not None and da_ is not None and lw in w.live and last_dec in "cb" and "end=ok" in obs or (kind in ("find", "findb") and w is not None and da_ is not None and lw in w.live):
+                        direct_issued[sv] = {"world": cur, "arch": da_, "toks": list(w.live[lw][1]), "removals": w.removals[da_], "words": dwords, "from_loop": kind}
+                    else:
+                        direct_issued.pop(sv, None)
                 else:
                     hvars[sv] = ("u", None, None, False)
+                    direct_issued.pop(sv, None)
         prev_summary = summary if summary else prev_summary
         if kind == "switch" and cur < len(worlds) and worlds[cur] is not None:
             prev_summary = summary
